@@ -905,5 +905,8 @@ pub fn run(tier: Tier) -> i32 {
     report.assume("a server does not send Session Expiry Interval in DISCONNECT, DUP with QoS 0, or client-to-server packet types: those are not in the faithfulness quantifier (they appear in the hostile sweeps)");
     report.assume("library more lenient than the reference (accepts a malformed packet) is counted in lenient_categories, not a violation: the property demands error-or-wait and no panic for malformed input, not rejection");
     report.assume("maximum packet size 0 means 'no limit' to the decoder and is not part of the size rule check; the no-limit runs use 268435460 (largest legal packet)");
+    // the decoder inside the engine: its state must not survive a connection (hostile bytes, then a new connection whose
+    // well-formed CONNACK must decode); judged by the robustness family's monitors on the real ProtocolState
+    crate::engine::run::run_family_subset_into(&mut report, "C03", "robustness", &|c| c.allow.hostile && c.cap == 4096, tier, "engine_level_decoder_reuse");
     report.finish()
 }
